@@ -4,9 +4,9 @@ import (
 	"bytes"
 	"encoding/hex"
 	"strings"
+	"testing"
 	"verif/harness/lib/mediah"
 	"verif/harness/lib/rtppack"
-	"testing"
 
 	"github.com/cnotch/ipchub/av/format/rtp"
 	"verif/harness/lib/evid"
